@@ -40,6 +40,7 @@ type Program struct {
 	Copies    []*CopySpec
 	Lanes     []*LaneSpec
 	Readonly  []*ReadonlySpec
+	StoresVia []*StoresViaSpec
 	Owned     map[string][]string // pkgpath.Type -> owned receiver fields
 	RepoDir   string
 }
@@ -238,6 +239,7 @@ func (p *Program) parseSpecFuncs(fset *token.FileSet, f *ast.File, pkgPath strin
 		}
 		p.Lanes = append(p.Lanes, parseLaneBlocks(pkgPath, lines, where)...)
 		p.Readonly = append(p.Readonly, parseReadonlyBlocks(pkgPath, lines, where)...)
+		p.StoresVia = append(p.StoresVia, parseStoresViaBlocks(pkgPath, lines, where)...)
 	}
 	for _, cg := range f.Comments {
 		for _, c := range cg.List {
